@@ -37,7 +37,7 @@ c.ghost_l.append(("clock", "float"))
 c.requires("valid_timeout(self)")
 c.requires("isinstance(ghost.clock, float)")
 c.modifies("self._start_connect", "ghost.clock")
-c.ensures("self._start_connect is result and isinstance(result, float) and result >= old(ghost.clock) and ghost.clock == result", "started-now")
+c.ensures("self._start_connect is result and isinstance(result, float) and result >= old(ghost.clock) and ghost.clock is result", "started-now")
 c.raises("TimeoutStateError", when="self._start_connect is not None", iff=True, name="already-started")
 c.exc_ensures("self._start_connect is old(self._start_connect)", "unchanged-on-error")
 
@@ -62,10 +62,11 @@ c.ghost_l.append(("clock", "float"))
 c.requires("valid_timeout(self)")
 c.requires("isinstance(ghost.clock, float) and (self._start_connect is None or self._start_connect <= ghost.clock)")
 c.modifies("ghost.clock")
-c.ensures("implies(self.total is None, result is self._read or (self._read is _DEFAULT_TIMEOUT and (result is None or result >= 0)))", "no-total")
+c.ensures("isinstance(ghost.clock, float) and ghost.clock >= old(ghost.clock)", "clock-monotone")
+c.ensures("implies(self.total is None, result is self._read or (self._read is _DEFAULT_TIMEOUT and (result is None or (is_num(result) and result >= 0))))", "no-total")
 c.ensures("implies(self.total is not None and not unset(self._read) and self._start_connect is None, result is self._read)", "not-started")
 c.ensures("implies(self.total is not None and self._start_connect is not None,"
-          " result >= 0 and result <= self.total and implies(not unset(self._read), result <= self._read))", "bounded")
+          " is_num(result) and result >= 0 and result <= self.total and implies(not unset(self._read), result <= self._read))", "bounded")
 c.ensures("implies(self.total is not None and self._start_connect is not None and not unset(self._read),"
           " result == num_max(0, num_min(self.total - (ghost.clock - self._start_connect), self._read)))", "exact")
 c.ensures("implies(self.total is not None and self._start_connect is not None and unset(self._read),"
